@@ -9,12 +9,9 @@ use core::mem::{size_of, MaybeUninit};
 
 /// Write `b[..size_of::<T>()]` over the storage of `slot`.
 pub fn fill<T>(slot: &mut MaybeUninit<T>, b: &[u8]) {
-    let p = slot.as_mut_ptr() as *mut u8;
-    let mut i = 0;
-    while i < size_of::<T>() {
-        unsafe { *p.add(i) = b[i] };
-        i += 1;
-    }
+    // one block copy (a single array update for CBMC) instead of size_of::<T>() individual symbolic stores
+    assert!(b.len() >= size_of::<T>());
+    unsafe { core::ptr::copy_nonoverlapping(b.as_ptr(), slot.as_mut_ptr() as *mut u8, size_of::<T>()) };
 }
 /// Read byte i of the storage of `slot`.
 pub fn peek<T>(slot: &MaybeUninit<T>, i: usize) -> u8 {
@@ -191,14 +188,16 @@ macro_rules! g_zeroize {
                 let mut a = core::mem::MaybeUninit::<$ty>::uninit();
                 generic::fill(&mut a, &inp[..]);
                 unsafe { core::ptr::drop_in_place(a.as_mut_ptr()) };
+                // branch-free accumulation: OR of every non-exempt byte must be zero
+                let mut acc = 0u8;
                 let mut i = 0;
                 while i < core::mem::size_of::<$ty>() {
                     if !exempt(i) {
-                        vcheck!(generic::peek(&a, i) == 0);
+                        acc |= generic::peek(&a, i);
                     }
                     i += 1;
                 }
-                Some(true)
+                Some(acc == 0)
             }
         }
     };
@@ -226,12 +225,13 @@ macro_rules! g_frame {
                 generic::as_ref(&a).encrypt_block(&mut b);
                 let mut b2 = blk.into();
                 generic::as_ref(&a).decrypt_block(&mut b2);
+                let mut diff = 0u8;
                 let mut i = 0;
                 while i < S {
-                    vcheck!(generic::peek(&a, i) == inp[i]);
+                    diff |= generic::peek(&a, i) ^ inp[i];
                     i += 1;
                 }
-                Some(true)
+                Some(diff == 0)
             }
         }
     };
@@ -327,14 +327,15 @@ macro_rules! g_new_eq_slice {
                     Ok(c) => core::mem::MaybeUninit::new(c),
                     Err(_) => return Some(false),
                 };
+                let mut diff = 0u8;
                 let mut i = 0;
                 while i < core::mem::size_of::<$ty>() {
                     if !exempt(i) {
-                        vcheck!(generic::peek(&a, i) == generic::peek(&b, i));
+                        diff |= generic::peek(&a, i) ^ generic::peek(&b, i);
                     }
                     i += 1;
                 }
-                Some(true)
+                Some(diff == 0)
             }
         }
     };
@@ -380,12 +381,44 @@ macro_rules! g_frame1 {
                 let mut b3: cipher::Block<$ty> = x.into();
                 g_dir!($dir, block, generic::as_ref(&a), &mut b3);
                 vcheck!(b1 == b3);
+                let mut diff = 0u8;
                 let mut i = 0;
                 while i < S {
-                    vcheck!(generic::peek(&a, i) == inp[i]);
+                    diff |= generic::peek(&a, i) ^ inp[i];
                     i += 1;
                 }
-                Some(true)
+                Some(diff == 0)
+            }
+        }
+    };
+}
+
+/// C20 totality with NOTHING abstracted: one call on an arbitrary valid state and block returns (every overflow, bounds,
+/// shift, unwrap and debug assertion on that path is a proof obligation) and leaves the instance unchanged.  Used where
+/// the history / routing harnesses run with an uninterpreted leaf.
+#[allow(unused_macros)]
+macro_rules! g_total {
+    ($name:ident, $ty:ty, $bs:expr, $valid:expr, $dir:ident) => {
+        verif_harness! {
+            name: $name,
+            bytes: core::mem::size_of::<$ty>() + $bs,
+            unwind: 5000,
+            prop: |inp| {
+                const S: usize = core::mem::size_of::<$ty>();
+                let valid: fn(&[u8]) -> bool = $valid;
+                vassume!(valid(&inp[..S]));
+                let mut a = core::mem::MaybeUninit::<$ty>::uninit();
+                generic::fill(&mut a, &inp[..S]);
+                let x: [u8; $bs] = take(&inp[..], S);
+                let mut b: cipher::Block<$ty> = x.into();
+                g_dir!($dir, block, generic::as_ref(&a), &mut b);
+                let mut diff = 0u8;
+                let mut i = 0;
+                while i < S {
+                    diff |= generic::peek(&a, i) ^ inp[i];
+                    i += 1;
+                }
+                Some(diff == 0)
             }
         }
     };
@@ -430,44 +463,54 @@ macro_rules! g_mixed {
                 let mut ey: cipher::Block<$ty> = y.into();
                 g_dir!(enc, block, generic::as_ref(&a), &mut ey);
                 vcheck!(ey == ry);
+                let mut diff = 0u8;
                 let mut i = 0;
                 while i < S {
-                    vcheck!(generic::peek(&a, i) == inp[i]);
+                    diff |= generic::peek(&a, i) ^ inp[i];
                     i += 1;
                 }
-                Some(true)
+                Some(diff == 0)
             }
         }
     };
 }
 
-/// C15, construction history: new(k2) in a fresh process, then new(k1), then new(k2) again yields the same state as the
-/// first time -- catches process-wide caches of key schedules keyed on too little.  Heavy key schedules may be replaced
-/// by a cheap key-dependent stub: the subject is what the constructor does around the schedule.
+/// C15, construction history: new(k2) in a fresh process, new(k1), new(k2), new(k3), new(k1): both constructions from k2
+/// yield the same state and both constructions from k1 do -- catches process-wide caches of key schedules keyed on too
+/// little (including one-entry caches that need an eviction to show).  Heavy key schedules may be replaced by a cheap
+/// key-dependent stub: the subject is what the constructor does around the schedule.
 #[allow(unused_macros)]
 macro_rules! g_ctor_history {
     ($name:ident, $ty:ty, $klen:expr, $exempt:expr $(, stubs: [$(($o:path, $r:path)),*])?) => {
         verif_harness! {
             name: $name,
-            bytes: 2 * $klen,
+            bytes: 3 * $klen,
             unwind: 5000,
             $(stubs: [$(($o, $r)),*],)?
             prop: |inp| {
                 let k1: [u8; $klen] = take(&inp[..], 0);
                 let k2: [u8; $klen] = take(&inp[..], $klen);
+                let k3: [u8; $klen] = take(&inp[..], 2 * $klen);
                 let exempt: fn(usize) -> bool = $exempt;
-                let first = core::mem::MaybeUninit::new(<$ty as cipher::KeyInit>::new(&k2.into()));
-                let other = core::mem::MaybeUninit::new(<$ty as cipher::KeyInit>::new(&k1.into()));
-                let again = core::mem::MaybeUninit::new(<$ty as cipher::KeyInit>::new(&k2.into()));
-                let _ = &other;
+                // history: new(k2) [fresh process]; new(k1); new(k2); new(k3); new(k1).  The two constructions from k2
+                // must agree (the first is the fresh-process truth), and so must the two from k1 (one directly after
+                // k2, one after an unrelated third key has been through: a one-entry cache keyed on too little shows here)
+                let a = core::mem::MaybeUninit::new(<$ty as cipher::KeyInit>::new(&k2.into()));
+                let b = core::mem::MaybeUninit::new(<$ty as cipher::KeyInit>::new(&k1.into()));
+                let c = core::mem::MaybeUninit::new(<$ty as cipher::KeyInit>::new(&k2.into()));
+                let e = core::mem::MaybeUninit::new(<$ty as cipher::KeyInit>::new(&k3.into()));
+                let d = core::mem::MaybeUninit::new(<$ty as cipher::KeyInit>::new(&k1.into()));
+                let _ = &e;
+                let mut diff = 0u8;
                 let mut i = 0;
                 while i < core::mem::size_of::<$ty>() {
                     if !exempt(i) {
-                        vcheck!(generic::peek(&first, i) == generic::peek(&again, i));
+                        diff |= generic::peek(&a, i) ^ generic::peek(&c, i);
+                        diff |= generic::peek(&b, i) ^ generic::peek(&d, i);
                     }
                     i += 1;
                 }
-                Some(true)
+                Some(diff == 0)
             }
         }
     };
